@@ -42,7 +42,7 @@ Print Assumptions C03_mania.
 (* taiko (after the fix 8d6162b): the same statement; passed_objects counts hits, the spec walks
    [(i, one-shot i)] for i = 1..hits *)
 Theorem C03_taiko : forall (S : Type) (process : S -> Z -> S) (s0 : S) (flags : list bool),
-  zlen flags < 18446744073709551616 ->
+  zlen flags < 4294967295 ->
   forall (St P : Type) (perf : Z * S -> Z -> St -> P) (ops : list (pop St)),
   Forall (fun o => match o with PNth _ n => 0 <= n | _ => True end) ops ->
   run_pops (taiko_nth S process flags) (taiko_len S flags) (@tg_idx S) perf ops (taiko_new S s0)
